@@ -1070,6 +1070,70 @@ fn build_one(c: &mut Ctx, fam: &str, idx: u64, rng: &mut Rng) {
     }
 }
 
+/// The record-data containers of the new API handed octets directly (the trait method is public, no RDLENGTH in front): the
+/// established codec carries at most 65535 octets of record data (`UnknownRecordData::from_octets`), and so must they - and
+/// what they accept they must hold unchanged.
+fn rdata_direct(c: &mut Ctx) {
+    use domain::base::rdata::UnknownRecordData;
+    use domain::new::base::ParseRecordDataBytes;
+    use domain::new::rdata::BoxedRecordData;
+    let fam = "rdata-direct";
+    let sizes: [usize; 16] = [0, 1, 2, 4, 255, 256, 4096, 65534, 65535, 65536, 65537, 65540, 70000, 131071, 131072, 131077];
+    for (ti, t) in [65280u16, w::T_TXT, 0, 4242, w::T_A, w::T_OPT].into_iter().enumerate() {
+        for (si, n) in sizes.iter().enumerate() {
+            let idx = (ti * sizes.len() + si) as u64;
+            let mut rng = c.case_rng(fam, idx);
+            // TXT: well-formed strings all the way; others: opaque octets
+            let mut bytes = Vec::with_capacity(*n);
+            if t == w::T_TXT {
+                while bytes.len() < *n {
+                    let l = (*n - bytes.len() - 1).min(255);
+                    bytes.push(l as u8);
+                    bytes.extend(std::iter::repeat(b'x').take(l));
+                }
+            } else {
+                bytes = rng.bytes(*n);
+            }
+            let bytes = ctx::exact(&bytes);
+            let old_ok = UnknownRecordData::from_octets(Rtype::from_int(t), &bytes[..]).is_ok();
+            let ex = json!({"rtype": t, "size": n});
+            let r = ctx::catch(|| {
+                let boxed = BoxedRecordData::parse_record_data_bytes(&bytes, RType::from(t));
+                let unparsed = <&domain::new::base::UnparsedRecordData>::parse_record_data_bytes(&bytes, RType::from(t)).is_ok();
+                let held = boxed.as_ref().ok().map(|b| {
+                    let cl = b.clone();
+                    let same = cl == *b;
+                    let built = build_to_vec(b);
+                    let _ = b.get();
+                    (b.bytes().to_vec(), u16::from(b.rtype()), same, built)
+                });
+                (boxed.is_ok(), unparsed, held)
+            });
+            c.eval(&("rdata-direct", t, *n > 65535, old_ok));
+            match r {
+                Err(pi) => c.violation(&format!("panic:{}", pi.site()), &format!("panic handing {} octets of TYPE{} record data to the new containers: {} at {}:{}", n, t, pi.msg, pi.file, pi.line), c.replay_of(fam, idx, ex)),
+                Ok((boxed_ok, unparsed_ok, held)) => {
+                    // (typed data may be refused for its contents; the size verdict is what is compared)
+                    if *n > 65535 && (boxed_ok || unparsed_ok) {
+                        c.violation(&format!("rdata-direct:accepts-beyond-65535:{}", if boxed_ok { "BoxedRecordData" } else { "UnparsedRecordData" }), &format!("{} octets of TYPE{} record data are accepted by the new container (boxed {}, unparsed {}); the established codec refuses them, no record can carry them", n, t, boxed_ok, unparsed_ok), c.replay_of(fam, idx, ex));
+                    } else if *n <= 65535 && old_ok && (t == 65280 || t == 4242 || t == 0) && !(boxed_ok && unparsed_ok) {
+                        c.violation("rdata-direct:refuses-opaque-data", &format!("{} octets of opaque TYPE{} record data are refused by the new container (boxed {}, unparsed {})", n, t, boxed_ok, unparsed_ok), c.replay_of(fam, idx, ex));
+                    } else if let Some((b, rt, same, built)) = held {
+                        if b != bytes || rt != t || !same || built.as_deref() != Some(&bytes[..]) {
+                            c.violation("rdata-direct:held-differently", &format!("BoxedRecordData given {} octets of TYPE{} holds {} octets of TYPE{} (clone equal: {}, builds {:?} octets)", n, t, b.len(), rt, same, built.map(|x| x.len())), c.replay_of(fam, idx, ex));
+                        } else {
+                            c.count("rdata_direct_held_unchanged", 1);
+                        }
+                    }
+                    if *n > 65535 && !boxed_ok && !unparsed_ok {
+                        c.count("rdata_direct_oversize_refused", 1);
+                    }
+                }
+            }
+        }
+    }
+}
+
 pub fn run(c: &mut Ctx) {
     c.families(3);
     if let Some(r) = c.replay.clone() {
@@ -1090,6 +1154,11 @@ pub fn run(c: &mut Ctx) {
         }
     }
     let miri = c.mode == "miri";
+    if c.shard == 0 && !miri {
+        rdata_direct(c);
+        c.floor("rdata_direct_held_unchanged", 10);
+        c.floor("rdata_direct_oversize_refused", 10);
+    }
     let fam = "diff";
     let total = c.total(400_000, 8_000_000);
     for idx in c.cases(fam, total) {
